@@ -30,7 +30,7 @@ func weighted(w map[string]int) []string {
 	return k
 }
 
-var stepKinds = weighted(map[string]int{"acq": 10, "fin": 4, "rel": 7, "rel2": 3, "relf": 2, "cancel": 2, "open": 3})
+var stepKinds = weighted(map[string]int{"acq": 10, "fin": 4, "rel": 7, "rel2": 3, "relf": 2, "cancel": 3, "open": 3})
 
 func genStep(addrs, threads int) func(t *rapid.T) Step {
 	return func(t *rapid.T) Step {
@@ -39,36 +39,52 @@ func genStep(addrs, threads int) func(t *rapid.T) Step {
 		case "acq":
 			st.T = rapid.IntRange(0, threads-1).Draw(t, "t")
 			st.A = rapid.IntRange(0, addrs-1).Draw(t, "a")
-			switch c := rapid.IntRange(0, 15).Draw(t, "ctx"); {
-			case c == 15:
+			switch c := rapid.SampledFrom(ctxKinds).Draw(t, "ctx"); c {
+			case "pre":
 				st.P = true
-			case c >= 10:
+			case "own":
 				st.C = true
 			}
-			switch f := rapid.IntRange(0, 19).Draw(t, "f"); {
-			case f >= 17:
-				st.F = 2
-			case f >= 9:
-				st.F = 1
-			}
-			st.B = rapid.IntRange(0, 9).Draw(t, "b") == 9
-			st.G = rapid.IntRange(0, 3).Draw(t, "g") == 3
-			st.D = rapid.IntRange(0, 7).Draw(t, "d") == 7
+			st.F = rapid.SampledFrom(dialModes).Draw(t, "f")
+			st.B = rapid.SampledFrom(oneIn10).Draw(t, "b")
+			st.G = rapid.SampledFrom(oneIn8).Draw(t, "g")
+			st.D = rapid.SampledFrom(oneIn10).Draw(t, "d")
 		case "fin":
 			st.I = rapid.IntRange(0, 2).Draw(t, "i")
-			st.OK = rapid.IntRange(0, 2).Draw(t, "ok") != 2
-			st.G = rapid.IntRange(0, 2).Draw(t, "g") == 2
-		case "rel", "rel2", "relf":
+			st.OK = rapid.SampledFrom(twoIn3).Draw(t, "ok")
+			st.G = rapid.SampledFrom(oneIn3).Draw(t, "g")
+		case "rel":
+			st.I = rapid.IntRange(0, 7).Draw(t, "i")
+			st.All = rapid.SampledFrom(oneIn3).Draw(t, "all")
+		case "rel2", "relf":
 			st.I = rapid.IntRange(0, 7).Draw(t, "i")
 		case "cancel":
 			st.I = rapid.IntRange(0, 3).Draw(t, "i")
-			st.G = rapid.IntRange(0, 2).Draw(t, "g") == 2
+			st.G = rapid.SampledFrom(oneIn3).Draw(t, "g")
 		case "open":
 			st.I = rapid.IntRange(0, 3).Draw(t, "i")
 		}
 		return st
 	}
 }
+
+func bools(trues, n int) []bool {
+	b := make([]bool, n)
+	for i := 0; i < trues; i++ {
+		b[n-1-i] = true
+	}
+	return b
+}
+
+var (
+	// SampledFrom shrinks towards the first element: the plain variant comes first
+	ctxKinds  = []string{"bg", "bg", "bg", "bg", "bg", "bg", "bg", "bg", "bg", "own", "own", "own", "own", "own", "own", "pre"}
+	dialModes = []int{0, 0, 0, 0, 0, 0, 0, 0, 0, 1, 1, 1, 1, 1, 1, 1, 1, 2, 2, 2}
+	oneIn3    = bools(1, 3)
+	twoIn3    = bools(2, 3)
+	oneIn8    = bools(1, 8)
+	oneIn10   = bools(1, 10)
+)
 
 func genScenario(t *rapid.T) *Scenario {
 	sc := &Scenario{
